@@ -2,6 +2,7 @@ package main
 
 import (
 	"fmt"
+	"go/token"
 	"go/types"
 	"strings"
 
@@ -28,6 +29,13 @@ func runC05(c *Ctx) {
 		c.undecided("O-0 anchors", "turbotunnelMode/ServeHTTP", "-", "anchor does not resolve")
 		return
 	}
+	// a session's accept goroutine works on its own session (no variable shared with the accept loop),
+	// and every carrier leaves an address entry (a session without one is accepted with a nil address)
+	c.prefix = "O-7/C01:"
+	c.checkLoopCapture("O-9 per-connection goroutines own their variables", "server", "server/lib", "common/turbotunnel", "common/websocketconn")
+	c.prefix = "O-7/C18:"
+	c.checkSetOnEveryCarrier("O-2 address flow")
+	c.prefix = ""
 	// the session must outlive its carriers on both ends (C01's protocol-constant obligations: KCP/smux parameters and the keep-alive timeout against the client-map retention)
 	if ns := p.Fn("client/lib", "newSession"); ns != nil {
 		c.prefix = "O-6/C01:"
@@ -76,6 +84,7 @@ func runC05(c *Ctx) {
 		}
 	}
 	c.check(wr == 0, rule1, "the ClientID cell is written only by io.ReadFull", p.instrPos(idCell), "", "the carrier's ClientID is modified after being read from the stream")
+	var fromCellRec func(v ssa.Value) bool
 	fromCell := func(v ssa.Value) bool {
 		for i := 0; i < 12; i++ {
 			switch x := v.(type) {
@@ -93,23 +102,37 @@ func runC05(c *Ctx) {
 				}
 				return false
 			case *ssa.UnOp:
-				if x.X == ssa.Value(idCell) {
+				if copyOrigin(x.X) == ssa.Value(idCell) {
 					return true
 				}
 				if fv, ok := x.X.(*ssa.FreeVar); ok {
-					return freeVarBinding(fv) == ssa.Value(idCell)
+					return copyOrigin(freeVarBinding(fv)) == ssa.Value(idCell)
 				}
 				if al, ok := x.X.(*ssa.Alloc); ok {
 					if par := paramSpill(al); par != nil {
 						v = par
 						continue
 					}
+					// a copy of the identifier (returned by value from a helper, merged over its paths)
+					if sv := singleStoreAny(al); sv != nil {
+						v = sv
+						continue
+					}
 				}
+			case *ssa.Phi:
+				all := len(x.Edges) > 0
+				for _, e := range x.Edges {
+					if !fromCellRec(e) {
+						all = false
+					}
+				}
+				return all
 			}
 			return false
 		}
 		return false
 	}
+	fromCellRec = fromCell
 	okE := errNilEdges(tm, readID, 1)
 	all := helperFns(tm, 2)
 	nUse := 0
@@ -242,7 +265,7 @@ func runC05(c *Ctx) {
 			// token filled by successful ReadFull
 			var rd *ssa.Call
 			for _, ci := range callsTo(sh, "io.ReadFull") {
-				if sl, ok := ci.Common().Args[1].(*ssa.Slice); ok && cell != nil && sl.X == ssa.Value(cell) {
+				if sl, ok := ci.Common().Args[1].(*ssa.Slice); ok && cell != nil && copyOrigin(sl.X) == copyOrigin(cell) {
 					rd, _ = ci.(*ssa.Call)
 				}
 			}
@@ -589,4 +612,58 @@ func (c *Ctx) checkClientMapIndex() {
 		}
 		c.check(okRet, rule, "SendQueue returns the record's queue", p.Pos(sq.Pos()), "", "")
 	}
+}
+
+// copyOrigin follows whole-value copies of a local cell back to the cell the
+// value was first written into (an array returned by value from a helper and
+// merged over its paths is still the bytes that io.ReadFull filled).
+func copyOrigin(a ssa.Value) ssa.Value {
+	for i := 0; i < 8; i++ {
+		al, ok := a.(*ssa.Alloc)
+		if !ok {
+			return a
+		}
+		sv := singleStoreAny(al)
+		if sv == nil {
+			return a
+		}
+		next := ssa.Value(nil)
+		var origin func(v ssa.Value) ssa.Value
+		seen := map[ssa.Value]bool{}
+		origin = func(v ssa.Value) ssa.Value {
+			if seen[v] {
+				return nil
+			}
+			seen[v] = true
+			switch x := v.(type) {
+			case *ssa.UnOp:
+				if x.Op == token.MUL {
+					if b, ok := x.X.(*ssa.Alloc); ok {
+						return copyOrigin(b)
+					}
+				}
+			case *ssa.Phi:
+				var o ssa.Value
+				for _, e := range x.Edges {
+					oe := origin(e)
+					if oe == nil {
+						return nil
+					}
+					if o == nil {
+						o = oe
+					} else if o != oe {
+						return nil
+					}
+				}
+				return o
+			}
+			return nil
+		}
+		next = origin(sv)
+		if next == nil {
+			return a
+		}
+		a = next
+	}
+	return a
 }
